@@ -810,6 +810,25 @@ func (x *Exec) applyContract(e *ast.CallExpr, st *State, fn *types.Func, c *Cont
 				// contract sees the struct by value; changes are written back
 				env[recvN] = cbind{rv, pt.Elem()}
 				valueRecv = true
+				// a method promoted from an embedded struct field of an object
+				// (p.M() for p.F.M()): the receiver's ghosts live at the
+				// address of that field
+				if sel, ok := unparen(e.Fun).(*ast.SelectorExpr); ok {
+					if s := x.info.Selections[sel]; s != nil && len(s.Index()) == 2 {
+						if id, isID := unparen(sel.X).(*ast.Ident); isID {
+							if ov, ok := x.expr(id, st).(Sc); ok && ov.T.S.Eq(IntSort) {
+								if ot := x.info.TypeOf(id); ot != nil {
+									if opt, ok := ot.Underlying().(*types.Pointer); ok {
+										if ost, ok := opt.Elem().Underlying().(*types.Struct); ok && s.Index()[0] < ost.NumFields() {
+											fname := ost.Field(s.Index()[0]).Name()
+											env["#addr:"+recvN] = cbind{Sc{App(fieldAddrFn, ov.T, funcID("field:"+fname))}, nil}
+										}
+									}
+								}
+							}
+						}
+					}
+				}
 			}
 		}
 	}
@@ -929,6 +948,9 @@ func (x *Exec) packVariadic(st *State, sliceT types.Type, vals []Value) Value {
 	}
 	return Sl{Comp: comps, Off: x.ar.idxC(0), Len: x.ar.idxC(int64(len(vals))), Nil: BoolC(len(vals) == 0)}
 }
+
+// fieldAddrFn: the address of an embedded struct field of an object.
+var fieldAddrFn = &FuncDecl{Name: "fieldaddr", Params: []*Sort{IntSort, IntSort}, Ret: IntSort}
 
 // applyModifies havocs what the callee's frame allows it to change.
 // modOnResult: the modifies entry speaks about a result of the callee (e.g.
